@@ -136,7 +136,7 @@ def build(e, shape):
             if "DP" in fmt:
                 c["DP"] = e.int("r%d.s%d.DP" % (i, s), 0, 500)
             if pre != "none":
-                has = e.bit("r%d.s%d.oldvalue" % (i, s))
+                has = 1 if shape.get("oldfix") else e.bit("r%d.s%d.oldvalue" % (i, s))
                 if pre == "PS":
                     c["PS"] = e.int("r%d.s%d.oldPS" % (i, s), 1, 1000000) if has else None
                     if "PQ" in fmt:
@@ -218,7 +218,22 @@ def build(e, shape):
                 comps[samples[t]][pos0] = earlier[comp]
                 sr_at[(gi, t)] = al
         plan.append(("chr" + c, True, srs, comps))
-    meta = dict(groups=groups, sr_at=sr_at, targets=targets, tag=tag, only_snvs=only_snvs, mav=mav)
+    # Is there a record without an HP key in which write() has something to say (a super-read with decided
+    # alleles covers a target call) but no target call ends up heterozygous?  (computed from the inputs only)
+    all_unphased = False
+    for gi, g in enumerate(groups):
+        acc = [j for j in g if reader_keeps(records[j], only_snvs, mav)]
+        sr_here = [al for (gj, t), al in sr_at.items() if gj == gi]
+        decided = [al for al in sr_here if all(a in (0, 1) or (mav and a != 3) for a in al)]
+        if acc and decided and "HP" not in records[acc[0]]["format"]:
+            het_after = False
+            for t in targets:
+                al = sr_at.get((gi, t))
+                if al is not None and al in decided:
+                    het_after = het_after or al[0] != al[1]
+            if not het_after:
+                all_unphased = True
+    meta = dict(groups=groups, sr_at=sr_at, targets=targets, tag=tag, only_snvs=only_snvs, mav=mav, all_unphased=all_unphased, nsamp=nsamp)
     return doc, plan, meta
 
 
@@ -429,7 +444,8 @@ class _Base(ScratchMixin, SubCheck):
             out = impl.phase(doc, shape, plan)
         except Exception as ex:
             kind = "the written VCF cannot be parsed (NUL bytes)" if type(ex).__name__ in ("CorruptOutput", "OSError") else "PhasedVcfWriter raised %s" % type(ex).__name__
-            e.check(False, "%s; tag=%s" % (kind, shape["tag"]), info)
+            trig = "a record without HP key whose target calls are all left unphased although a super-read covers them" if meta["all_unphased"] else "none identified"
+            e.check(False, "%s; tag=%s; samples=%d; trigger: %s" % (kind, shape["tag"], meta["nsamp"], trig), info)
         e.out("out", out)
         cover_tags(e, doc, plan, meta, out)
         oracle(e, doc, plan, meta, out, info)
@@ -477,6 +493,11 @@ class Record(_Base):
                 out.append(dict(tag=tag, nsamp=2, targets=[0], kinds=["snv"], pre=[pre], distrust=1, gtset="small", rich=0))
                 out.append(dict(tag=tag, nsamp=1, targets=[0], kinds=["snv"], pre=[pre], gtset="full", eq=1))
             out.append(dict(tag=tag, nsamp=2, targets=[1], kinds=["snv"], pre=["PS"], badhp=1, hv=1, gtset="small"))
+        if tier == "quick":
+            # opaque fields / header variant: enumerated round-robin over the shapes instead of solver-chosen
+            for i, sh in enumerate(out):
+                sh.setdefault("rich", i % 2)
+                sh.setdefault("hv", (i // 2 + i // 7) % 2)
         return out
 
 
@@ -497,7 +518,7 @@ class Dup(_Base):
                         out.append(dict(tag=tag, nsamp=2, targets=[0], kinds=[a, b], pre=["none", "none"], only_snvs=osnv, gtset="small", rich=0, hv=0))
             out.append(dict(tag=tag, nsamp=1, targets=[0], kinds=["snv", "snv"], pre=[tag, tag], gtset="small", rich=0, hv=1))
             out.append(dict(tag=tag, nsamp=1, targets=[0], kinds=["snv", "snv"], pre=["PS", "HP"], gtset="small", rich=0, hv=1))
-            out.append(dict(tag=tag, nsamp=2, targets=[0, 1], kinds=["snv", "snv"], pre=["none", "none"], gtset="small", rich=0, hv=0))
+            out.append(dict(tag=tag, nsamp=2, targets=[0, 1], kinds=["snv", "snv"], pre=["none", "none"], gtset="tiny" if tier == "quick" else "small", rich=0, hv=0))
             if tier != "quick":
                 for a in ("snv", "multi"):
                     for b in ("snv", "nogt"):
@@ -518,7 +539,7 @@ class Chrom(_Base):
             for layout in ("ab", "aab", "abb"):
                 for nocontig in ("", "b", "ab"):
                     out.append(dict(tag=tag, nsamp=2, targets=[0], kinds=["snv"] * len(layout), chroms=layout, pre=["none"] * len(layout), nocontig=nocontig, gtset="small" if len(layout) == 2 else "tiny", rich=0, hv=0, dups=False))
-            out.append(dict(tag=tag, nsamp=2, targets=[0, 1], kinds=["snv", "snv"], chroms="ab", pre=[tag, tag], gtset="small", rich=1, hv=1))
+            out.append(dict(tag=tag, nsamp=2, targets=[0, 1], kinds=["snv", "snv"], chroms="ab", pre=[tag, tag], gtset="tiny" if tier == "quick" else "small", rich=1, hv=1, dups=False, oldfix=1))
         return out
 
 
